@@ -7,6 +7,7 @@ import (
 	"context"
 	"fmt"
 	"log/slog"
+	"sort"
 	"strings"
 	"time"
 	"unicode/utf8"
@@ -255,6 +256,12 @@ type Tokenizer struct {
 	Comments   []models.Comment    // Comments captured during tokenization
 
 	skippedComment bool // set by readPunctuation when it consumed a comment instead of a token
+
+	// Last offset converted by toSQLPosition (see there); reset with the input.
+	colCacheValid bool
+	colCacheLine  int
+	colCacheIdx   int
+	colCacheCol   int
 }
 
 // New creates a new Tokenizer with default configuration and keyword support.
@@ -1657,38 +1664,47 @@ func (t *Tokenizer) readPunctuation() (models.Token, error) {
 }
 
 // toSQLPosition converts an internal Position => a models.Location
+//
+// The tokenizer asks for positions in increasing order (start and end of every
+// token), so the conversion is incremental: the line is found by binary search
+// in lineStarts and the column scan resumes from the last position converted
+// on the same line instead of rescanning the line from its start. This keeps
+// tokenizing linear in the input size even for one very long line or very
+// many lines.
 func (t *Tokenizer) toSQLPosition(pos Position) models.Location {
-	// Find the line containing pos
-	line := 1
-	lineStart := 0
-
-	// Find the line number using lineStarts
-	for i := 0; i < len(t.lineStarts); i++ {
-		if t.lineStarts[i] > pos.Index {
-			break
-		}
-		line = i + 1
-		lineStart = t.lineStarts[i]
+	idx := pos.Index
+	if idx > len(t.input) {
+		idx = len(t.input)
+	}
+	if idx < 0 {
+		idx = 0
 	}
 
-	// Calculate column by counting characters from line start
-	// Column is 1-based, so we start at 1
-	column := 1
-	for i := lineStart; i < pos.Index && i < len(t.input); i++ {
+	// Last line start that is <= idx.
+	li := sort.Search(len(t.lineStarts), func(i int) bool { return t.lineStarts[i] > idx }) - 1
+	if li < 0 {
+		li = 0
+	}
+	lineStart := 0
+	if li < len(t.lineStarts) {
+		lineStart = t.lineStarts[li]
+	}
+
+	column, from := 1, lineStart
+	if t.colCacheValid && t.colCacheLine == li && t.colCacheIdx >= lineStart && t.colCacheIdx <= idx {
+		column, from = t.colCacheCol, t.colCacheIdx
+	}
+	for i := from; i < idx; i++ {
 		if t.input[i] == '\t' {
 			column += 4 // Treat tab as 4 spaces
 		} else {
 			column++
 		}
 	}
-
-	// Ensure column is never less than 1
-	if column < 1 {
-		column = 1
-	}
+	t.colCacheValid, t.colCacheLine, t.colCacheIdx, t.colCacheCol = true, li, idx, column
 
 	return models.Location{
-		Line:   line,
+		Line:   li + 1,
 		Column: column,
 	}
 }
@@ -1733,11 +1749,8 @@ func isIdentifierChar(r rune) bool {
 func (t *Tokenizer) hasCodeBeforeOnLine(idx int) bool {
 	// Find the start of the line containing idx
 	lineStart := 0
-	for i := len(t.lineStarts) - 1; i >= 0; i-- {
-		if t.lineStarts[i] <= idx {
-			lineStart = t.lineStarts[i]
-			break
-		}
+	if li := sort.Search(len(t.lineStarts), func(i int) bool { return t.lineStarts[i] > idx }) - 1; li >= 0 {
+		lineStart = t.lineStarts[li]
 	}
 	// Check for non-whitespace between lineStart and idx
 	for i := lineStart; i < idx && i < len(t.input); i++ {
